@@ -21,6 +21,8 @@ use crate::compiler::analyses::constructibles::ConstructibleDb;
 use crate::compiler::analyses::framework_items::FrameworkItemDb;
 use crate::compiler::app::GENERATED_APP_PACKAGE_ID;
 use crate::compiler::computation::Computation;
+use crate::compiler::framework_rustdoc::resolve_type_path;
+use crate::compiler::traits::assert_trait_is_implemented;
 use crate::diagnostic::{AnnotatedSource, CompilerDiagnostic, HelpWithSnippet};
 use crate::language::LifetimeGenerator;
 use crate::language::{
@@ -451,6 +453,12 @@ impl RequestHandlerPipeline {
         // We iterate in reverse order because closer to the request handler
         // we are less likely to encounter borrowing issues that relate to some of
         // our synthetic types.
+        let copy_trait = {
+            let Type::Path(c) = resolve_type_path("core::marker::Copy", krate_collection) else {
+                unreachable!()
+            };
+            c
+        };
         'stage_iter: for stage in stages.iter_mut().rev() {
             let ids: Vec<_> = stage
                 .pre_processing_ids
@@ -510,6 +518,11 @@ impl RequestHandlerPipeline {
                         Type::TypeAlias(_) |
                         Type::Tuple(_) |
                         Type::Array(_) => {
+                            // `Copy` types can be used again after having been passed by value,
+                            // this analysis doesn't concern them.
+                            if assert_trait_is_implemented(krate_collection, &ty, &copy_trait).is_ok() {
+                                continue;
+                            }
                             type2info.entry(ty.clone()).or_default().consumed_by.push(ConsumerInfo { middleware_index: index, component_id });
                         }
                         // Scalars are trivially `Copy`, this analysis doesn't concern them.
